@@ -462,6 +462,14 @@ func (p *Packer) Unpack(r io.Reader, dst string) error {
 			continue
 		}
 
+		// A symlink left at this path by an earlier entry is replaced, never
+		// followed: its target may lie outside of dst.
+		if fi, err := os.Lstat(info.Path); err == nil && fi.Mode()&os.ModeSymlink != 0 {
+			if err := os.Remove(info.Path); err != nil {
+				return fmt.Errorf("failed replacing symlink %q: %w", info.Path, err)
+			}
+		}
+
 		// Open a handle to the destination.
 		fh, err := os.Create(info.Path)
 		if err != nil {
